@@ -56,6 +56,7 @@ Definition or_unmodelled {A} (o : option (res A)) : res A := match o with Some r
 Definition mk_runtime
   (lu lm : list (nat * pv * res pv)) (nu : list (pv * res pv)) (ld : list (pv * res pv))
   (vs : list (pv * res (list pv))) (its : list (pv * res (list (pv * pv))))
+  (ups : list (pv * res (pv * pv)))
   (pl : list (pv * bool)) (ix : list (nat * pv)) (uh : list nat) (aeq : list (nat * nat)) (nonev : pv) (sup : list exn) : runtime :=
   {| leaf_u := fun s x => or_unmodelled (lookup_leaf s x lu);
      leaf_m := fun s x => or_unmodelled (lookup_leaf s x lm);
@@ -64,6 +65,7 @@ Definition mk_runtime
      values_scalar := fun x => or_unmodelled (lookup_pv x vs);
      items_scalar := fun x => or_unmodelled (lookup_pv x its);
      pairlike_scalar := fun x => match lookup_pv x pl with Some b => b | None => false end;
+     unpack_scalar := fun x => or_unmodelled (lookup_pv x ups);
      index := fun i => match lookup_nat i ix with Some v => v | None => PAtom 0 end;
      unhashable_class := fun c => existsb (Nat.eqb c) uh;
      atom_eq := fun a b => existsb (fun p => (Nat.eqb a (fst p) && Nat.eqb b (snd p)) || (Nat.eqb b (fst p) && Nat.eqb a (snd p))) aeq;
